@@ -72,6 +72,11 @@ CLAIMED = {
             "histories of length <= 5 over a 7-op alphabet) incl. donor blocks of every codec and reopen with arbitrary schema/codec/metadata/marker/interval arguments: status "
             "and stream bytes after every op, records read back after flush.",
             "reopen is modelled as flush + new Writer whose marker/codec/schema come from the existing header (what _is_appendable + header re-read do on a seekable stream).", "§3 C07"),
+    "C15": ("Rocq proof: json_enc is the specification's JSON encoding (one equation per type, labels = full names also through references, bytes as Latin-1), json_dec(json_enc a) = a for every typed value, JSON and binary decodings agree, absent keys take defaults; json_writer/json_reader vs the model and an independent Python JSON encoder",
+            "Theorems (coq/props/C15.v): C15_spec (+_loops, _labels, _bytes), C15_roundtrip, C15_binary_agree, C15_defaults. Tie: json_writer text (json.loads, by value) vs json_enc of the "
+            "elaborated records, json_reader values, JSON vs binary decoding, defaults for deleted keys, both write_union_type settings; the statement itself evaluated with an independent encoder.",
+            "Known findings F11a-d (recursive types / field-less records in the grammar), K4 (map value ending in a nested record), K5 (numbers not converted to the schema type), K6 (record default containing a union) "
+            "are reported as KNOWN-FINDING; ~83% of generated cases lie outside every known-defect class. d2s(s2d x) = x on float leaves is a per-leaf evaluated hypothesis; the push-down automaton is not modelled step by step.", "§3 C15"),
     "C16": ("Rocq proof over Z of every logical-type conversion on its whole domain (dates, times, timestamps, uuid, decimal two's complement); correspondence + stdlib-oracle sweeps",
             "Theorems (coq/props/C16.v, 22): date/time/timestamp representations and round trips for every ordinal, every time of day, every instant; two's-complement library; "
             "decimal bytes/fixed exactness and never-altered theorems (for the repaired prepare_fixed_decimal; refuted witnesses for the old code kept as documentation). "
